@@ -9,6 +9,7 @@ package verifhook
 import (
 	"io"
 	"net/http"
+	"os"
 )
 
 // Enabled reports whether the hooks are compiled in.
@@ -24,3 +25,13 @@ func Transport(scheme, host string) http.RoundTripper                   { return
 func WrapReader(r io.Reader) io.Reader                                  { return r }
 func WrapWriter(w io.Writer) io.Writer                                  { return w }
 func Exit(code int)                                                     {}
+
+// StdioSet stands in for the process's standard streams.
+type StdioSet struct {
+	Stdin  io.Reader
+	Stdout io.Writer
+	Stderr io.Writer
+}
+
+func Stdio() StdioSet { return StdioSet{os.Stdin, os.Stdout, os.Stderr} }
+func InProcess() bool { return false }
